@@ -284,3 +284,93 @@ theorem endPosBefore_clean {m : Map} (hs : Sorted m) (f : Nat) :
   · simp
 
 end DEngine.LogStore
+
+namespace DEngine.LogStore
+
+/-! ### general upserts (re-written and lower indexes) -/
+
+theorem maxKey_insert (m : Map) (e : Ent) : maxKey (insert m e) = max (maxKey m) e.idx := by
+  induction m with
+  | nil => simp [insert, maxKey_cons, maxKey_nil]
+  | cons x r ih =>
+    simp only [insert]
+    split
+    · simp only [maxKey_cons]; omega
+    · split
+      · rename_i h1 h2; simp only [maxKey_cons]; omega
+      · simp only [maxKey_cons, ih]; omega
+
+theorem maxKey_insertAll (es : List Ent) : ∀ (m : Map), maxKey (insertAll m es) = max (maxKey m) (maxKey es) := by
+  induction es with
+  | nil => intro m; simp [insertAll, maxKey_nil]
+  | cons e r ih =>
+    intro m
+    have := ih (insert m e)
+    simp only [insertAll, List.foldl_cons] at this ⊢
+    rw [this, maxKey_insert, maxKey_cons]; omega
+
+theorem mem_insert {m : Map} {e x : Ent} (h : x ∈ insert m e) : x = e ∨ x ∈ m := by
+  induction m with
+  | nil => simp [insert] at h; exact Or.inl h
+  | cons y r ih =>
+    simp only [insert] at h
+    split at h
+    · rcases List.mem_cons.mp h with h | h
+      · exact Or.inl h
+      · exact Or.inr h
+    · split at h
+      · rcases List.mem_cons.mp h with h | h
+        · exact Or.inl h
+        · exact Or.inr (List.mem_cons_of_mem _ h)
+      · rcases List.mem_cons.mp h with h | h
+        · exact Or.inr (by simp [h])
+        · rcases ih h with h | h
+          · exact Or.inl h
+          · exact Or.inr (List.mem_cons_of_mem _ h)
+
+theorem sorted_insert {m : Map} (hs : Sorted m) (e : Ent) : Sorted (insert m e) := by
+  induction m with
+  | nil => simp [insert]
+  | cons y r ih =>
+    have hsr : Sorted r := (List.pairwise_cons.mp hs).2
+    have hy : ∀ b ∈ r, y.idx < b.idx := (List.pairwise_cons.mp hs).1
+    simp only [insert]
+    split
+    · rename_i h1
+      refine List.Pairwise.cons ?_ hs
+      intro b hb
+      rcases List.mem_cons.mp hb with rfl | hb
+      · exact h1
+      · have := hy b hb; omega
+    · split
+      · rename_i h1 h2
+        refine List.Pairwise.cons ?_ hsr
+        intro b hb; have := hy b hb; omega
+      · rename_i h1 h2
+        refine List.Pairwise.cons ?_ (ih hsr)
+        intro b hb
+        rcases mem_insert hb with rfl | hb
+        · omega
+        · exact hy b hb
+
+theorem sorted_insertAll (es : List Ent) : ∀ {m : Map}, Sorted m → Sorted (insertAll m es) := by
+  induction es with
+  | nil => intro m h; simpa [insertAll] using h
+  | cons e r ih =>
+    intro m h
+    have := ih (m := insert m e) (sorted_insert h e)
+    simpa [insertAll] using this
+
+theorem mem_insertAll (es : List Ent) : ∀ {m : Map} {x : Ent}, x ∈ insertAll m es → x ∈ es ∨ x ∈ m := by
+  induction es with
+  | nil => intro m x h; exact Or.inr (by simpa [insertAll] using h)
+  | cons e r ih =>
+    intro m x h
+    have h' : x ∈ insertAll (insert m e) r := by simpa [insertAll] using h
+    rcases ih h' with h1 | h1
+    · exact Or.inl (List.mem_cons_of_mem _ h1)
+    · rcases mem_insert h1 with rfl | h2
+      · exact Or.inl (by simp)
+      · exact Or.inr h2
+
+end DEngine.LogStore
